@@ -152,7 +152,10 @@ Print Assumptions c18_reject_invalid.
       the model emits satisfy the ORACLE Spec_C18.answer_ok -- holes in front of and between stored messages
       included.  exact_ok = the decoder neither drops nor reorders tokens of the stored strings (the codec's own
       properties C03/C04); keys_below = what is stored was sent.  The negation of nothing_stored_beyond is the
-      classifier of the known finding. *)
+      classifier of the known finding.
+      [c18_ok applies answer_ok to `original_store` = the stored numbers with, under each number, the message as it
+       was ORIGINALLY TRANSMITTED (first new OUT event carrying that MsgSeqNum); for the model this is the store
+       itself: send_process stores the very bytes it hands to the socket (property C17).] *)
 Theorem c18_answer_ok_partial : forall sc decode now, schema_ok sc = true -> forall s seqnum m,
   nosoh (s_snd s) = true -> nosoh (s_tgt s) = true ->
   (exists r, enforce sc now seqnum m s = (inl r, s, [])) ->
